@@ -263,8 +263,9 @@ type rewriter struct {
 	sites *[]site
 	edits []edit
 	// whether the file needs the util keep-alive
-	utilName string
-	curFunc  string
+	utilName    string
+	runtimeName string
+	curFunc     string
 }
 
 func (rw *rewriter) off(p token.Pos) int { return rw.p.Fset.Position(p).Offset }
@@ -326,6 +327,9 @@ func (rw *rewriter) rewrite() ([]byte, error) {
 	tail := "\nvar _ = verifsim.Yield\n"
 	if rw.utilName != "" {
 		tail += "var _ = " + rw.utilName + ".Exists\n"
+	}
+	if rw.runtimeName != "" {
+		tail += "var _ = " + rw.runtimeName + ".Version\n"
 	}
 	rw.edits = append(rw.edits, edit{len(rw.src), 0, tail})
 
@@ -579,6 +583,12 @@ func (rw *rewriter) selector(x *ast.SelectorExpr) {
 			rw.utilName = id.Name
 		} else {
 			rw.audit(x.Pos(), "release-utils util."+x.Sel.Name+" may touch the real filesystem")
+		}
+	case "runtime":
+		// the number of processors is an input of the simulation, not of the machine it runs on
+		if x.Sel.Name == "GOMAXPROCS" || x.Sel.Name == "NumCPU" || x.Sel.Name == "Gosched" {
+			rw.edits = append(rw.edits, edit{rw.off(x.Pos()), rw.off(x.End()) - rw.off(x.Pos()), "verifsim.Runtime" + x.Sel.Name})
+			rw.runtimeName = id.Name
 		}
 	case "path/filepath":
 		if filepathFS[x.Sel.Name] {
